@@ -37,7 +37,7 @@ ASSUMPTIONS = [
 REQUIRED = ["op:overlap", "op:contains", "op:distance_ring", "op:distance_line", "op:connect_ring",
             "op:connect_line", "op:offset_ring", "op:offset_line", "op:extend_ring", "op:extend_line",
             "op:roundtrip_string", "op:bridges", "op:make_forwards", "op:remove_redundant",
-            "op:build_from_others", "op:lt"]
+            "op:build_from_others", "op:lt", "class:build-from-compound-operands"]
 
 
 def _s(loc) -> str:
@@ -317,7 +317,16 @@ def oracle_remove_redundant(ctx, loc, case=None):
 
 def oracle_build_from_others(ctx, pieces, case=None):
     ctx.count("op:build_from_others")
+    given = [_s(p) for p in pieces]
     res = L.build_location_from_others(pieces)
+    # the operands are the caller's (a gene's location, a leader): they stay as they were, and asking again
+    # gives the same answer
+    again = L.build_location_from_others(pieces)
+    if [_s(p) for p in pieces] != given or _s(again) != _s(res):
+        ctx.violate("query-leaves-location-unchanged",
+                    {"op": "build_location_from_others", "before": given, "after": [_s(p) for p in pieces],
+                     "first": _s(res), "again": _s(again)}, case or given)
+        return
     src = [iv for p in pieces for iv in ring.parts_of(p)]
     out = ring.parts_of(res)
     problems = []
@@ -418,6 +427,7 @@ def exhaustive(ctx, lengths):
         bridging = list(G.all_bridging(length))
         lin_rec = DummyRecord(seq="A" * length, circular=False)
         circ_rec = DummyRecord(seq="A" * length, circular=True)
+        circ_rec.add_annotation("topology", ("circular", "Circular", "CIRCULAR")[length % 3])
         # unary operations, both strands
         for parts in simple + bridging:
             for loc in _strand_variants(parts):
@@ -534,7 +544,9 @@ def _SizedRecord(length, circular):
     from Bio.Seq import Seq
     rec = record_module.Record(seq="")
     rec._record.seq = Seq(None, length=length)  # pylint: disable=protected-access
-    rec.add_annotation("topology", "circular" if circular else "linear")
+    # the topology annotation is not case sensitive
+    rec.add_annotation("topology", ("circular", "Circular", "CIRCULAR")[length % 3] if circular
+                       else ("linear", "Linear")[length % 2])
     return rec
 
 
@@ -543,7 +555,9 @@ def gen_random_case(rng):
     circular = rng.random() < 0.65
     count = rng.randrange(1, 6)
     max_span = rng.choice([None, max(2, length // 3), max(2, length // 2 + 1)])
-    locs = [G.rand_location(rng, length, circular, max_span=max_span) for _ in range(count)]
+    # one location in ten has no known strand (strand 0, written '?')
+    locs = [G.rand_location(rng, length, circular, max_span=max_span, strand=rng.choice([1, -1] * 9 + [0, 0]))
+            for _ in range(count)]
     # boundary helpers: a pair exactly half the record apart
     if circular and rng.random() < 0.2 and length >= 8:
         half = length // 2
@@ -579,6 +593,31 @@ def overlapping_exon_cases(ctx, count):
         if pieces:
             ctx.case(("build", [_s(p) for p in pieces]), nontrivial=len(pieces) > 1)
             ok, _ = ctx.guard("build-from-others-crash", [_s(p) for p in pieces], oracle_build_from_others, ctx, pieces)
+        # the same with operands of several exons (a leader or core cut by introns), on either strand, in the
+        # biological order of the strand
+        segs = [(p.start, p.end) for p in pieces]
+        if len(segs) >= 3:
+            groups, i = [], 0
+            while i < len(segs):
+                n = rng.randrange(1, 4)
+                groups.append(segs[i:i + n])
+                i += n
+            operands = []
+            for group in groups:
+                merged = [list(group[0])]
+                for a, b in group[1:]:
+                    if a == merged[-1][1] and rng.random() < 0.5:
+                        merged[-1][1] = b
+                    else:
+                        merged.append([a, b])
+                operands.append(G.mk([tuple(m) for m in merged], strand))
+            if strand == -1:
+                operands.reverse()
+            if any(len(o.parts) > 1 for o in operands) and len(operands) > 1:
+                ctx.count("class:build-from-compound-operands")
+                key = [_s(o) for o in operands]
+                ctx.case(("build", key), nontrivial=True)
+                ctx.guard("build-from-others-crash", key, oracle_build_from_others, ctx, operands)
 
 
 def run(ctx):
